@@ -184,8 +184,18 @@ def run(tier, seed, ck=None):
 
 def battery(ck, failures):
     """boundary / adversarial encodings replayed against a SEC1 oracle"""
+    cases = adversarial_cases(ck.seed)
+    path = ck.save_replay({'property': ck.pid, 'cases': cases, 'failed': failures[:10]})
+    ok, out = core.go_test(path)
+    if not ok and 'MISMATCH' in out:
+        ck.violation('decode', 'decoder deviates from canonical SEC1 (%s): %s' % (failures[0], [l.strip() for l in out.splitlines() if 'MISMATCH' in l][:1]), path)
+    else:
+        ck.inconclusive.append('failed obligations %s did not reproduce on adversarial encodings: %s' % (failures[:3], out[-200:]))
+
+
+def adversarial_cases(seed):
     import random
-    rng = random.Random(ck.seed + 5)
+    rng = random.Random(seed + 5)
     G = (GX, GY)
     def dbl(Pt):
         x, y = Pt
@@ -218,12 +228,10 @@ def battery(ck, failures):
     cases += ['02' + '%064x' % P, '02' + '%064x' % (P - 1), '03' + 'ff' * 32, '04' + 'ff' * 64, '02' + '00' * 32, '04' + '00' * 64, '04' + '00' * 32 + '%064x' % 1]
     for _ in range(10):
         cases.append(rng.choice(['02', '03', '04', '00']) + ''.join('%02x' % rng.getrandbits(8) for _ in range(rng.choice([32, 64]))))
-    path = ck.save_replay({'property': 'C03', 'cases': [{'kind': 'el-decode', 'a': c} for c in cases], 'failed': failures[:10]})
-    ok, out = core.go_test(path)
-    if not ok and 'MISMATCH' in out:
-        ck.violation('decode', 'decoder deviates from canonical SEC1 (%s): %s' % (failures[0], [l.strip() for l in out.splitlines() if 'MISMATCH' in l][:1]), path)
-    else:
-        ck.inconclusive.append('failed obligations %s did not reproduce on adversarial encodings: %s' % (failures[:3], out[-200:]))
+    # consecutive decodes of both prefixes for the same x (order matters for stateful decoders)
+    X = '%064x' % GX
+    cases += ['02' + X, '03' + X, '02' + X, '03' + X, '03' + X, '02' + X]
+    return [{'kind': 'el-decode', 'a': c} for c in cases]
 
 
 def replay(path):
